@@ -555,7 +555,7 @@ func c12Stress(c *Ctx, rounds int) {
 		stalled := false
 		select {
 		case <-done:
-		case <-time.After(30 * time.Second):
+		case <-time.After(15 * time.Second):
 			stalled = true
 		}
 		close(stop)
@@ -577,7 +577,8 @@ func c12Stress(c *Ctx, rounds int) {
 			r.violate(Violation{Kind: "property", Key: "C12:sem:stress-stall",
 				What:  fmt.Sprintf("concurrent acquire/release/update run did not finish: QueueLength=%d Reserved=%d CurrentSize=%d", sem.QueueLength(), sem.Reserved(), sem.CurrentSize()),
 				Input: in, Expect: "every worker (each request <= limit) finishes"})
-			continue
+			r.note("stress rounds stopped after the first stall")
+			break
 		}
 		if over > 0 {
 			r.violate(Violation{Kind: "property", Key: "C12:sem:stress-over-limit",
@@ -665,9 +666,9 @@ func runC12(c *Ctx) {
 			}
 		}
 	}
-	n := 2500
+	n := 6000
 	if c.Thorough {
-		n = 60000
+		n = 80000
 	}
 	for i := 0; i < n; i++ {
 		size := int64(1 + c.Rng.Intn(12))
@@ -686,7 +687,15 @@ func runC12(c *Ctx) {
 	}
 	// execute in chunks: real code first, then one batch to the driver
 	const chunk = 500
+	semBudget, semT0 := 25*time.Second, time.Now()
+	if c.Thorough {
+		semBudget = 240 * time.Second
+	}
 	for lo := 0; lo < len(cases); lo += chunk {
+		if time.Since(semT0) > semBudget {
+			r.note("ResourceSemaphore: time budget %v used up after %d of %d sequences", semBudget, lo, len(cases))
+			break
+		}
 		hi := lo + chunk
 		if hi > len(cases) {
 			hi = len(cases)
@@ -768,9 +777,9 @@ func runC12(c *Ctx) {
 		}
 	}
 
-	rounds := 6
+	rounds := 10
 	if c.Thorough {
-		rounds = 120
+		rounds = 150
 	}
 	c12Stress(c, rounds)
 
